@@ -9,7 +9,7 @@ CAP_MENU = ["junk\n", "  @bad tag\n"]
 
 def std_sources(tier, n_quick, n_thorough, dialects=None):
     n = n_quick if tier == "quick" else n_thorough
-    return E.src_corpus() + E.src_generated(n, SEED, dialects) + E.src_noisy(n, SEED)
+    return E.src_corpus() + E.src_limits() + E.src_generated(n, SEED, dialects) + E.src_noisy(n, SEED)
 
 
 def _error_transitions(rep):
@@ -94,6 +94,37 @@ def c01(tier, rep):
             pass
         except Exception as e:  # noqa: BLE001
             rep.violation({"kind": "source-names-existing-path"}, {"engine": "probe", "what": f"Parser().parse({probe!r}) raised {type(e).__name__}", "source": probe})
+    # nothing hangs: inputs that are worst cases for pattern matching (long runs of the characters each pattern repeats), under a time limit
+    import signal
+
+    class _Timeout(Exception):
+        pass
+
+    def _alarm(*_):
+        raise _Timeout()
+    patho = {
+        "language-header-long-name-then-junk": "# language: " + "a" * 40 + " (more text)\nFeature: f\n",
+        "language-header-blank-runs": "#" + " " * 3000 + "language" + " " * 3000 + ":" + " " * 3000 + "en" + " " * 3000 + "x\nFeature: f\n",
+        "tag-line-blank-runs": "Feature: f\n  @a" + " " * 5000 + "@b" + " " * 5000 + "x #" + " " * 5000 + "\n  Scenario: s\n",
+        "cell-blank-runs": "Feature: f\n  Scenario: s\n    Given x\n      |" + " " * 5000 + "a" + " " * 5000 + "|" + "\\n" * 2000 + " " * 3000 + "|\n",
+        "title-blank-runs": "Feature:" + " " * 20000 + "f" + " " * 20000 + "\n",
+        "docstring-escapes": "Feature: f\n  Scenario: s\n    Given x\n      \"\"\"\n" + "\\\"" * 5000 + "\n      \"\"\"\n",
+        "placeholder-runs": "Feature: f\n  Scenario Outline: " + "<" * 3000 + "a" + ">" * 3000 + "\n    Given " + "<a" * 3000 + "\n    Examples:\n      | a |\n      | " + "<a>" * 500 + " |\n",
+    }
+    for name, s in patho.items():
+        rep.case(("hang-probe", name))
+        signal.signal(signal.SIGALRM, _alarm)
+        signal.alarm(20)
+        try:
+            t0 = time.time()
+            rec = R.record(name, s)
+            signal.alarm(0)
+            if rec["exc"]:
+                rep.violation({"kind": "hang-probe-exception"}, {"engine": "probe", "what": rec["exc"], "input_class": name})
+        except _Timeout:
+            rep.violation({"kind": "hang"}, {"engine": "probe", "what": "parse + compile did not finish within 20 s on a short input", "input_class": name, "source": s[:300]})
+        finally:
+            signal.alarm(0)
     # linear work: line-matching operations against the bound computed from the derived table
     dump, res = T.spec_table()
     K = max(len(s["trans"]) for s in dump["states"]) + 2 * 4
